@@ -54,6 +54,8 @@ PURE = {
     "std::option::Option::map_or": "Option::map_or",
     "std::option::Option::map_or_else": "Option::map_or_else",
     "std::option::Option::unwrap_or": "Option::unwrap_or",
+    "std::option::Option::unwrap_or_else": "Option::unwrap_or_else",
+    "std::option::Option::unwrap_or_default": "Option::unwrap_or_default",
     "std::option::Option::cloned": "Option::cloned",
     "std::option::Option::copied": "Option::copied",
     "std::option::Option::is_some": "Option::is_some",
@@ -339,12 +341,13 @@ class Evaluator:
         self._pending = []
         self.bind_fn = None
 
-    def _record_payload_facts(self, ctx, bb, x):
+    def _record_payload_facts(self, ctx, bb, x, cond=None):
         """facts that hold whenever `Some(x)` is built in block bb (used for payloads of local callees)"""
-        from guards import full_block_facts
+        from guards import full_block_facts, bool_facts
         if x[0] in ("int", "const"):
             return
-        for f in full_block_facts(self, ctx, bb):
+        extra = bool_facts(cond, True) if cond is not None else []
+        for f in list(full_block_facts(self, ctx, bb)) + extra:
             if f[0] == "flag":
                 lst = self.payload_flags.setdefault(x, [])
                 if f not in lst:
@@ -407,7 +410,11 @@ class Evaluator:
                     if v[0] == "agg" and v[1].endswith("Option::Some") and v[2]:
                         self._pending.append(("payload", ctx, bb, v[2][0]))
                 elif kind == "call":
-                    opts.append(self.call(ctx, bb, payload))
+                    v = self.call(ctx, bb, payload)
+                    opts.append(v)
+                    if v[0] == "call" and v[1] == "bool::then_some" and len(v[2]) == 2:
+                        # `cond.then_some(x)`: a `Some(x)` built where cond holds
+                        self._pending.append(("payload+", ctx, bb, v[2][1], v[2][0]))
                 elif kind == "mutcall":
                     opts.append(("call", "Vec::pushed", (("cyclic", body.debug_names.get(l, "_%d" % l)),
                                                          self.operand(ctx, payload["args"][1]))))
@@ -430,6 +437,8 @@ class Evaluator:
             for item in pend:
                 if item[0] == "payload":
                     self._record_payload_facts(item[1], item[2], item[3])
+                elif item[0] == "payload+":
+                    self._record_payload_facts(item[1], item[2], item[3], cond=item[4])
                 else:
                     self._record_option_facts(item[1], item[2], item[3])
         return r
@@ -662,6 +671,8 @@ class Evaluator:
             return payload_shallow(args[0])
         if model == "ident" and args:
             return args[0]
+        if model == "Option::unwrap_or_else" and len(args) == 2:
+            return ("call", "Option::unwrap_or", (args[0], self.closure_ret(ctx, args[1], [])))
         if model == "clamp" and len(args) == 3:
             # x.clamp(lo, hi) = min(max(x, lo), hi)  (panics if lo > hi; with lo = 0 on unsigned values: min(x, hi))
             x, lo, hi = args
